@@ -365,6 +365,12 @@ pub open spec fn item_wf(gr: Gram, it: StateItem) -> bool { item_ok(gr.g, it) &&
 
 pub open spec fn advanced(it: StateItem) -> StateItem { StateItem { rule_index: it.rule_index, lookahead: it.lookahead, dot: (it.dot + 1) as usize } }
 
+/// the rules of the validated file as File::get_rules lists them (one per struct / enum variant, declaration order)
+pub uninterp spec fn file_rules(f: &crate::data::validated_file::File) -> Seq<Rule<'_>>;
+
+/// [S' -> . start, $]
+pub open spec fn start_item() -> StateItem { StateItem { rule_index: RuleIndex::Augmented, lookahead: Lookahead::Eof, dot: 0 } }
+
 /// la is a lookahead of FIRST(syms a): a terminal of FIRST(syms), or `a` itself if syms is nullable
 pub open spec fn in_first_la(gr: Gram, syms: Seq<Symbol>, a: Lookahead, la: Lookahead) -> bool {
     (la matches Lookahead::Terminal(t) && seq_in_first(gr.g, syms, t)) || (seq_nullable(gr.g, syms) && la == a)
